@@ -55,7 +55,7 @@ def call_pool(rng):
         "sock_new %d %d %s" % (sl(), rng.randrange(2), e()), "sock_bad %s" % e(), "sock_listen %d %s" % (sl(), e()),
         "sock_connect %d %d %s" % (sl(), sl(), e()), "sock_connect_refused %d %s" % (sl(), e()), "sock_connect_timeout %d %s" % (sl(), e()),
         "sock_accept %d %d %s" % (sl(), sl(), e()), "sock_local %d %d %s" % (sl(), sl(), e()), "sock_remote %d %d %s" % (sl(), sl(), e()),
-        "sock_udp_echo %d %d %s" % (sl(), sl(), e()), "sock_close %d %s" % (sl(), e()), "sock_shutdown %d" % sl(), "sock_io_closed %d %d %s" % (sl(), rng.randrange(7), e()), "dir_create_missing %s" % e(), "dir_remove_missing %s" % e(), "sock_free %d" % sl(), "sock_from_fd %d %s" % (sl(), e()),
+        "sock_udp_echo %d %d %s" % (sl(), sl(), e()), "sock_close %d %s" % (sl(), e()), "sock_io_closed %d %d %s" % (sl(), rng.randrange(7), e()), "dir_create_missing %s" % e(), "dir_remove_missing %s" % e(), "sock_free %d" % sl(), "sock_from_fd %d %s" % (sl(), e()),
         "sem_new %d %d %d %s" % (sl(), rng.randrange(3), rng.choice([0, 0, 1]), e()), "sem_cycle %d %s" % (sl(), e()), "sem_own %d" % sl(), "sem_free %d" % sl(),
         "shm_new %d %d %d %s" % (sl(), rng.randrange(3), rng.choice(SHM_SIZES), e()), "shm_own %d" % sl(), "shm_cycle %d %s" % (sl(), e()), "shm_free %d" % sl(),
         "shmbuf_new %d %d %d %s" % (sl(), 3 + rng.randrange(3), rng.choice(SHM_SIZES), e()), "shmbuf_rw %d %s" % (sl(), e()), "shmbuf_fill %d %s" % (sl(), e()), "shmbuf_own %d" % sl(),
@@ -142,7 +142,10 @@ def directed_cases():
                 "call sock_connect 2 1 12", "call sysfail fcntl", "call sock_accept 1 3 12", "call sysfail fcntl", "call sock_from_fd 4 12", "call sysfail sem_open",
                 "call shm_new 5 2 0 12", "call shm_new 5 2 0 12", "call sysfail sem_open", "call shm_new 6 2 2 12", "call sysfail sem_open", "call shmbuf_new 7 3 0 12",
                 "call sysfail sem_open", "call sem_new 8 4 1 12", "call shm_free 5", "call sock_free 2", "call sock_free 1", "call err_free 12", "call lib_shutdown", "end"])
-    # shutdown of both directions on connected sockets (client, accepted, connected datagram), then close and/or free
+    # shutdown of both directions on connected sockets (client, accepted), then close and/or free.  Only in directed
+    # sequences: on a socket that was never connected the kernel keeps the shutdown flags, a later connect() then polls
+    # as writable at once and SO_ERROR is 0 — a kernel quirk the resource model does not describe (a random sequence
+    # `sock_from_fd; sock_shutdown; sock_connect_timeout` showed it in the thorough tier)
     out.append(["begin", "call lib_init", "call sock_new 0 0 12", "call sock_listen 0 12", "call sock_new 1 0 12", "call sock_connect 1 0 12", "call sock_accept 0 2 12",
                 "call sock_shutdown 1", "call sock_shutdown 2", "call sock_shutdown 0", "call sock_close 1 12", "call sock_free 1", "call sock_free 2", "call sock_free 0",
                 "call err_free 12", "call lib_shutdown", "end"])
